@@ -132,8 +132,12 @@ func NewMux(lb *loadbalancer.LoadBalancer, cfg *config.Config, mc *metrics.Metri
 	if len(cfg.AdminAPI.IPAllowList) > 0 || len(cfg.AdminAPI.IPDenyList) > 0 {
 		ipFilter, err := NewIPFilter(cfg.AdminAPI.IPAllowList, cfg.AdminAPI.IPDenyList)
 		if err != nil {
-			logging.L().Error().Err(err).Msg("failed to create IP filter")
-			return mux
+			// Fail closed: a typo in an allow/deny entry must not expose the API unfiltered
+			logging.L().Error().Err(err).Msg("failed to create IP filter; admin api refuses all requests")
+			return http.HandlerFunc(func(w http.ResponseWriter, r *http.Request) {
+				w.WriteHeader(http.StatusForbidden)
+				_, _ = w.Write([]byte("Forbidden: IP filter configuration is invalid"))
+			})
 		}
 		logging.L().Info().
 			Int("allow_list_size", len(cfg.AdminAPI.IPAllowList)).
